@@ -9,6 +9,7 @@ Replacing a positive universal by finitely many instances only WEAKENS the asser
 is a proof.  `sat` of the result is only a candidate (goes through replay / the un-weakened re-query).
 """
 import itertools
+import os
 
 import z3
 
@@ -67,6 +68,7 @@ class CC:
     def __init__(self, exprs):
         self.parent = {}
         self.terms = {}
+        self.shape = {}
         seen = set()
 
         def rec(e):
@@ -78,11 +80,14 @@ class CC:
                 rec(e.body())
                 return
             if z3.is_app(e):
-                for c in e.children():
+                ch = e.children()
+                for c in ch:
                     rec(c)
                 if not _has_var(e):
                     self.terms[i] = e
                     self.parent.setdefault(i, i)
+                    if ch:
+                        self.shape[i] = (e.decl().get_id(), [c.get_id() for c in ch])
 
         def top_eqs(e):
             if z3.is_and(e):
@@ -117,10 +122,8 @@ class CC:
         for _ in range(6):
             sig = {}
             changed = False
-            for i, t in self.terms.items():
-                if t.num_args() == 0:
-                    continue
-                k = (t.decl().get_id(), tuple(self.find(c.get_id()) for c in t.children()))
+            for i, (did, chs) in self.shape.items():
+                k = (did, tuple(self.find(c) for c in chs))
                 j = sig.get(k)
                 if j is None:
                     sig[k] = i
@@ -537,4 +540,69 @@ def make_qf(assertions, rounds=None, goal_index=None):
         stats["instances"] = 0
         out = instantiate_once(sk, idx, consts, stats, cc, goal_ids)
     stats["ground_terms"] = prev_size
+    if os.environ.get("PYVC_RELEVANCE", "1") != "0" and goal_index is not None:
+        out = relevance_filter(out, sk, len(skg), stats)
     return out, stats
+
+
+def _key_terms(e, acc=None, seen=None):
+    """ids of the ground indexing / uninterpreted applications occurring in e"""
+    acc = set() if acc is None else acc
+    seen = set() if seen is None else seen
+    i = e.get_id()
+    if i in seen:
+        return acc
+    seen.add(i)
+    if z3.is_quantifier(e):
+        return acc
+    if z3.is_app(e):
+        if e.num_args() > 0 and _is_indexing(e) and not _has_var(e):
+            acc.add(i)
+        for c in e.children():
+            _key_terms(c, acc, seen)
+    return acc
+
+
+def _conjuncts(e):
+    if z3.is_and(e):
+        out = []
+        for c in e.children():
+            out.extend(_conjuncts(c))
+        return out
+    return [e]
+
+
+def relevance_filter(out, sk, n_goal, stats, depth=3):
+    """Drop instances that are not connected (through shared ground index terms) to the negated goal within `depth`
+    steps.  Only instances of quantified hypotheses are candidates for dropping; dropping hypotheses is sound."""
+    goal_parts = out[len(out) - n_goal:] if n_goal else []
+    hyp_parts = out[:len(out) - n_goal] if n_goal else out
+    keep, cands = [], []
+    for orig, inst_ in zip(sk[:len(hyp_parts)], hyp_parts):
+        if _contains_quant(orig):
+            cands.extend(_conjuncts(inst_))
+        else:
+            keep.append(inst_)
+    if len(cands) < 150:
+        return out
+    frontier = set()
+    for g in goal_parts:
+        frontier |= _key_terms(g)
+    for k in keep:
+        pass
+    info = [(c, _key_terms(c)) for c in cands]
+    reached = set(frontier)
+    kept_idx = set()
+    for _ in range(depth):
+        new = set()
+        for idx, (c, ks) in enumerate(info):
+            if idx in kept_idx:
+                continue
+            if ks & reached:
+                kept_idx.add(idx)
+                new |= ks
+        if not new - reached:
+            break
+        reached |= new
+    stats["relevance"] = {"instances": len(info), "kept": len(kept_idx)}
+    return keep + [info[i][0] for i in sorted(kept_idx)] + list(goal_parts)
